@@ -1,13 +1,15 @@
 #!/bin/bash
 # Confirms seeds written by a sub-agent (dirs <root>/<PROP>_w<k>/{patch.diff,demo.py,notes.md}) in a scratch worktree
+# usage: ingest_seeds.sh <root> [dir-suffix-pattern (_w)] [wave number (2)]
 # (demo passes clean, fails patched, pinned suite unchanged) and copies the confirmed ones to /verif/seeded/<PROP>_w<k>/ with a meta.json.
-root=$1
+root=$1; pat=${2:-_w}; wave=${3:-2}
 wt=/tmp/wt_ingest_$$
 git -C /repo worktree add -q --detach $wt HEAD || exit 1
 head=$(git -C /repo log --format=%h -1)
-for d in $root/*_w*/; do
+for d in $root/*${pat}*/; do
   id=$(basename $d)
   [ -f $d/patch.diff ] || continue
+  [ -d /verif/seeded/$id ] && continue
   cd $wt && git checkout -q -- . && git clean -fdq
   PYTHONPATH=/verif/compat:$wt timeout 900 /venv/bin/python $d/demo.py $wt >/dev/null 2>&1; clean=$?
   if ! git apply $d/patch.diff 2>/dev/null; then echo "$id PATCH-DOES-NOT-APPLY"; continue; fi
@@ -18,10 +20,10 @@ for d in $root/*_w*/; do
   echo "$id clean=$clean patched=$patched :: $tests :: $files"
   if [ "$clean" = "0" ] && [ "$patched" = "1" ] && [ "$tests" = "50 failed, 108 passed, 97 warnings, 292 errors" ]; then
     mkdir -p /verif/seeded/$id && cp $d/patch.diff $d/demo.py $d/notes.md /verif/seeded/$id/ 2>/dev/null
-    python3 - "$id" "$files" "$head" "$tests" <<'PY'
+    python3 - "$id" "$files" "$head" "$tests" "$wave" <<'PY'
 import json,sys
-id_,files,head,tests=sys.argv[1:5]
-m={"property":id_.split('_')[0],"seed":id_,"files_changed":files.split(),"wave":2,
+id_,files,head,tests,wave=sys.argv[1:6]
+m={"property":id_.split('_')[0],"seed":id_,"files_changed":files.split(),"wave":int(wave),
    "source":"written by an independent sub-agent that saw only the property text and a scratch worktree",
    "confirmed_by_me":{"scratch_worktree":f"git worktree of /repo HEAD ({head}) under /tmp, removed afterwards","demo_on_clean_tree_exit":0,
                       "demo_with_patch_exit":1,"pinned_suite_with_patch":tests,"pinned_suite_clean":tests,"command":"/verif/selftest/ingest_seeds.sh"},
